@@ -6,8 +6,12 @@ Decided (shape of the code, all inputs):
          Python-3 builtin (symtable) -- a NameError on a classification branch is a 500;
   R17.b  no constant-false / type-confused classification test on a value known to be ``bytes``:
          ``b[i] == b'x'`` (int vs bytes), bytes-vs-str comparisons, ``'s' in <bytes>``,
-         ``<bytes>.startswith('s')``; every label-deciding ``return True`` of _guess_json is guarded
-         by a matching open/close bracket pair that can be true;
+         ``<bytes>.startswith('s')``; _guess_json, read by shape as a predicate over (empty?, first byte, last
+         byte) of its parameter -- branches on comparisons, membership of the (first, last) pair or of the
+         concatenation of the two one-byte slices in a folded constant collection, a loop / any() over a constant
+         table of pairs, an opening -> closing table, startswith / endswith --, answers true exactly for the pairs
+         ({, }) and ([, ]): every accepting return admits only those and can be true, both are admitted, the
+         empty input is answered False and no element of a possibly empty value is touched;
   R17.c  render_response: each Response label follows its test (json <= _guess_json, html <= the
          html sniff and not json, plain otherwise), str is encoded before the bytes classification,
          non-Sized values are stringified with a *bound* callable, everything else is handed to
@@ -1368,7 +1372,7 @@ def run(rep):
             rep.ok('R17.b', fkey(gj), 'no constant-false or TypeError-raising test on the bytes parameter %s' % sorted(bnames), simple, gj.node)
         # label feasibility is decided from the shape of the function (path conditions of each ``return True``);
         # the function is never evaluated on sample bodies
-        _gj_structural(rep, simple, gj, bnames, 'shape')
+        _gj_structural(rep, repo, simple, gj, bnames, 'shape')
 
     def g_render():
         rr, ctx_param, paths = get_rr()
@@ -1865,63 +1869,613 @@ def run(rep):
                 rep.gaps.append(str(e))
 
 
-def _gj_structural(rep, simple, gj, bnames, why):
-    """Label feasibility of _guess_json by shape (used when the function cannot be evaluated): each ``return True`` is
-    guarded by a matching bracket pair on first and last byte."""
-    pairs_seen = set()
-    want = {(b'{', b'}'), (b'[', b']')}
-    rets_true = [r for r in returns_of(gj) if isinstance(r.value, ast.Constant) and r.value.value is True]
-    if not rets_true:
-        raise AnalysisError('_guess_json has a shape the analysis cannot follow (%s; no "return True")' % why)
-    for r in rets_true:
-        cs = conds(gj, r)
-        lits = []
-        for t, p in cs:
-            if p is True and isinstance(t, ast.Compare) and len(t.ops) == 1 and isinstance(t.ops[0], ast.Eq):
-                c = t.comparators[0]
-                if isinstance(c, ast.Constant) and isinstance(c.value, bytes):
-                    side = 'start' if _is_start(t.left) else ('end' if _is_end(t.left) else None)
-                    lits.append((side, c.value))
-            if p is True and isinstance(t, ast.Call) and isinstance(t.func, ast.Attribute) and \
-                    t.func.attr in ('startswith', 'endswith') and t.args and isinstance(t.args[0], ast.Constant):
-                lits.append(('start' if t.func.attr == 'startswith' else 'end', t.args[0].value))
-        start = [v for s, v in lits if s == 'start']
-        end = [v for s, v in lits if s == 'end']
-        pair = (start[0], end[0]) if len(start) == 1 and len(end) == 1 else None
-        if not lits:
-            raise AnalysisError('_guess_json: "return True" at line %s is not guarded by literal first/last byte tests the analysis '
-                                'can read (conditions: %s)' % (r.lineno, '; '.join(cond_texts(cs))))
-        ok = pair in want
-        if ok:
-            pairs_seen.add(pair)
-        rep.check('R17.b', fkey(gj, 'return True #%d' % (rets_true.index(r) + 1)), ok,
-                  'guarded by first/last byte pair %r (conditions: %s)' % (pair, '; '.join(cond_texts(cs))) if ok else
-                  '"return True" is not guarded by a matching JSON bracket pair on first and last byte '
-                  '(found %r; conditions: %s)' % (lits, '; '.join(cond_texts(cs))), simple, r)
-    rep.check('R17.b', fkey(gj, 'bracket pairs'), pairs_seen == want,
-              'both JSON container forms ({..} and [..]) are recognised' if pairs_seen == want else
-              'recognised bracket pairs %r, expected object and array' % sorted(pairs_seen), simple, gj.node)
-    rets_false_empty = [r for r in returns_of(gj) if isinstance(r.value, ast.Constant) and r.value.value is False
-                        and has_cond(conds(gj, r), lambda t: isinstance(t, ast.Name) and t.id in bnames, False)]
-    rep.check('R17.b', fkey(gj, 'empty'), bool(rets_false_empty),
-              'empty input returns False before any indexing' if rets_false_empty else
-              'no early "return False" for empty input (indexing an empty value is not guarded)', simple, gj.node)
+# ---------------------------------------------------------------------------------------------- the JSON guess, by shape
+_WANT_PAIRS = frozenset([(b'{', b'}'), (b'[', b']')])
+_NOFOLD = object()
+_MIRROR = {ast.Lt: ast.Gt, ast.LtE: ast.GtE, ast.Gt: ast.Lt, ast.GtE: ast.LtE, ast.Eq: ast.Eq}
+_COMPS = (ast.ListComp, ast.SetComp, ast.DictComp, ast.GeneratorExp, ast.Lambda)
 
 
-def _is_start(e):
-    if isinstance(e, ast.Subscript):
-        s = e.slice
-        if isinstance(s, ast.Slice):
-            return s.lower is None and isinstance(s.upper, ast.Constant) and s.upper.value == 1
-        return isinstance(s, ast.Constant) and s.value == 0
-    return False
+class _FnView(object):
+    """What sym_paths reads of a function, for the copy whose loops over constant tables were unrolled."""
+    def __init__(self, fi, node):
+        self.node, self.qualname, self.mod, self.cls = node, fi.qualname, fi.mod, fi.cls
 
 
-def _is_end(e):
-    if isinstance(e, ast.Subscript):
-        s = e.slice
-        if isinstance(s, ast.Slice):
-            return s.upper is None and isinstance(s.lower, ast.UnaryOp) and isinstance(s.lower.op, ast.USub) \
-                and isinstance(s.lower.operand, ast.Constant) and s.lower.operand.value == 1
-        return isinstance(s, ast.UnaryOp) and isinstance(s.op, ast.USub) and isinstance(s.operand, ast.Constant) and s.operand.value == 1
-    return False
+def _value_ast(v):
+    """Literal expression of a folded constant (None: no literal spelling)."""
+    if isinstance(v, (tuple, list)):
+        elts = [_value_ast(x) for x in v]
+        if any(e is None for e in elts):
+            return None
+        return (ast.Tuple if isinstance(v, tuple) else ast.List)(elts=elts, ctx=ast.Load())
+    if v is None or isinstance(v, (bytes, str, int, float)):
+        return ast.Constant(value=v)
+    return None
+
+
+def _slice_role(e, names):
+    """'first' / 'last' (the one-byte slices x[:1], x[0:1] / x[-1:]) or 'first_int' / 'last_int' (the elements x[0] /
+    x[-1]) of one of the named values; None for anything else."""
+    if not (isinstance(e, ast.Subscript) and isinstance(e.value, ast.Name) and e.value.id in names):
+        return None
+    s = e.slice
+
+    def const(x, v):
+        if v < 0:
+            return isinstance(x, ast.UnaryOp) and isinstance(x.op, ast.USub) and const(x.operand, -v) or \
+                (isinstance(x, ast.Constant) and type(x.value) is int and x.value == v)
+        return isinstance(x, ast.Constant) and type(x.value) is int and x.value == v
+    if isinstance(s, ast.Slice):
+        if s.step is not None and not const(s.step, 1):
+            return None
+        if (s.lower is None or const(s.lower, 0)) and s.upper is not None and const(s.upper, 1):
+            return 'first'
+        if s.upper is None and s.lower is not None and const(s.lower, -1):
+            return 'last'
+        return None
+    if const(s, 0):
+        return 'first_int'
+    if const(s, -1):
+        return 'last_int'
+    return None
+
+
+class _GuessShape(object):
+    """The JSON guess read as a predicate over (is the input empty, its first byte, its last byte).  Every test of the
+    function is read by *shape* -- comparisons / membership tests of the first / last byte (slice or element) of the
+    parameter, of the pair or the concatenation of the two, with constants (folded: literals, module- and class-level
+    tables), ``startswith`` / ``endswith``, emptiness tests -- and solved for the (first, last) pairs it admits.  The
+    function is never run and no input body is ever constructed; a test outside this vocabulary is an AnalysisError."""
+
+    def __init__(self, repo, fi, param):
+        self.repo, self.fi, self.param = repo, fi, param
+        self.notes = []
+        self.locals = set(p for p in fi.params() if p not in ('self', 'cls')) | set(n.id for n in ast.walk(fi.node) if isinstance(n, ast.Name) and isinstance(n.ctx, ast.Store))
+
+    # -- constants and terms
+    def fold(self, e):
+        """Constant value of an expression that does not read the parameter or a local (literals, module-level and
+        class-level constants, collections of them); _NOFOLD otherwise."""
+        for n in ast.walk(e):
+            if isinstance(n, _COMPS):
+                return _NOFOLD
+            if isinstance(n, ast.Name) and (n.id.startswith('<') or (n is not e and n.id in self.locals) or n.id == self.param):
+                return _NOFOLD
+        if isinstance(e, ast.Constant):
+            return e.value
+        try:
+            if isinstance(e, (ast.Name, ast.Attribute)):
+                v = _fold_const(self.repo, self.fi, e)
+            else:
+                v = self.repo.try_fold(e, self.fi.mod)
+        except Exception:
+            return _NOFOLD
+        return _NOFOLD if v is None else v
+
+    def local_value(self, name, depth):
+        """The expression a local that is bound exactly once stands for (the unrolled / substituted trees do not
+        contain such names any more; the original tree, used for the guards of element accesses, does)."""
+        if depth > 4 or name == self.param:
+            return None
+        vals = assigned_value(self.fi.node, name)
+        if len(vals) != 1:
+            return None
+        st, v, i = vals[0]
+        if not isinstance(v, ast.expr):
+            return None
+        if i is None:
+            return v
+        if isinstance(i, int) and isinstance(v, (ast.Tuple, ast.List)) and i < len(v.elts) and \
+                not any(isinstance(x, ast.Starred) for x in v.elts):
+            return v.elts[i]
+        return None
+
+    def term(self, e, depth=0):
+        """('param',) | ('first',) | ('last',) | ('first_int',) | ('last_int',) | ('tuple' / 'list', [terms]) |
+        ('cat', [first / last terms]) | ('get', {constant table}, key term) | ('const', value) | None."""
+        if isinstance(e, ast.Name) and e.id == self.param:
+            return ('param',)
+        role = _slice_role(e, (self.param,))
+        if role is not None:
+            return (role,)
+        if isinstance(e, ast.Name) and isinstance(e.ctx, ast.Load):
+            v = self.local_value(e.id, depth)
+            if v is not None:
+                return self.term(v, depth + 1)
+        c = self.fold(e)
+        if c is not _NOFOLD:
+            return ('const', c)
+        if isinstance(e, (ast.Tuple, ast.List)) and not any(isinstance(x, ast.Starred) for x in e.elts):
+            ts = [self.term(x, depth) for x in e.elts]
+            if all(t is not None for t in ts):
+                return ('tuple' if isinstance(e, ast.Tuple) else 'list', ts)
+            return None
+        if isinstance(e, ast.BinOp) and isinstance(e.op, ast.Add):
+            parts, todo = [], [e]
+            while todo:
+                x = todo.pop(0)
+                if isinstance(x, ast.BinOp) and isinstance(x.op, ast.Add):
+                    todo = [x.left, x.right] + todo
+                else:
+                    parts.append(self.term(x, depth))
+            if parts and all(t is not None and t[0] in ('first', 'last') for t in parts):
+                return ('cat', parts)
+            return None
+        if isinstance(e, ast.Call) and isinstance(e.func, ast.Attribute) and e.func.attr == 'get' and len(e.args) == 1 \
+                and not e.keywords:
+            table = self.fold(e.func.value)
+            key = self.term(e.args[0], depth)
+            if isinstance(table, dict) and key is not None:
+                return ('get', table, key)
+        return None
+
+    # -- solving "term == constant" for the first / last byte
+    @staticmethod
+    def merge(a, b):
+        out = dict(a)
+        for k, v in b.items():
+            if k in out and out[k] != v:
+                return None
+            out[k] = v
+        if out.get('empty') and ('f' in out or 'l' in out):
+            return None
+        return out
+
+    def _product(self, sols, ms):
+        return [m2 for s in sols for m in ms for m2 in [self.merge(s, m)] if m2 is not None]
+
+    def match(self, t, v):
+        """Partial assignments {'f': first byte, 'l': last byte, 'empty': True} under which term t equals the constant
+        v; [] = never; None = not expressible."""
+        k = t[0]
+        if k == 'const':
+            try:
+                return [{}] if t[1] == v else []
+            except Exception:
+                return None
+        if k in ('first', 'last'):
+            if isinstance(v, bytes):
+                if len(v) == 1:
+                    return [{'f' if k == 'first' else 'l': v}]
+                return [{'empty': True}] if len(v) == 0 else []
+            self.notes.append('a slice of a bytes value never equals the %s constant %r' % (type(v).__name__, v))
+            return []
+        if k in ('first_int', 'last_int'):
+            if isinstance(v, int) and 0 <= v <= 255:
+                return [{'f' if k == 'first_int' else 'l': bytes([v])}]
+            if isinstance(v, (bytes, str)):
+                self.notes.append('an element of a bytes value is an int and never equals the %s constant %r'
+                                  % (type(v).__name__, v))
+            return []
+        if k in ('tuple', 'list'):
+            if type(v) is not (tuple if k == 'tuple' else list) or len(v) != len(t[1]):
+                return []
+            sols = [{}]
+            for ti, vi in zip(t[1], v):
+                ms = self.match(ti, vi)
+                if ms is None:
+                    return None
+                sols = self._product(sols, ms)
+            return sols
+        if k == 'cat':
+            if not isinstance(v, bytes):
+                self.notes.append('a concatenation of bytes slices never equals the %s constant %r' % (type(v).__name__, v))
+                return []
+            if len(v) == 0:
+                return [{'empty': True}]
+            if len(v) != len(t[1]):
+                return []
+            sols = [{}]
+            for i, ti in enumerate(t[1]):
+                sols = self._product(sols, [{'f' if ti[0] == 'first' else 'l': v[i:i + 1]}])
+            return sols
+        if k == 'param':
+            if isinstance(v, bytes) and len(v) == 0:
+                return [{'empty': True}]
+            return None
+        return None
+
+    def unify(self, t1, t2):
+        if t2[0] == 'const':
+            return self.match(t1, t2[1])
+        if t1[0] == 'const':
+            return self.match(t2, t1[1])
+        if t1[0] == 'get' or t2[0] == 'get':
+            g, o = (t1, t2) if t1[0] == 'get' else (t2, t1)
+            if o[0] == 'get':
+                return None
+            out = []
+            for kk, vv in g[1].items():
+                mk, mv = self.match(g[2], kk), self.match(o, vv)
+                if mk is None or mv is None:
+                    return None
+                out.extend(self._product(mk, mv))
+            # a key that is not in the table yields None, which no byte slice / element / pair equals
+            return out
+        if t1[0] in ('tuple', 'list') and t1[0] == t2[0] and len(t1[1]) == len(t2[1]):
+            sols = [{}]
+            for a, b in zip(t1[1], t2[1]):
+                ms = self.unify(a, b)
+                if ms is None:
+                    return None
+                sols = self._product(sols, ms)
+            return sols
+        return None
+
+    # -- boolean structure
+    def dnf(self, e, pol=True):
+        """[[(atom, polarity)]]: the conjunctions under which the truth value of e is ``pol``."""
+        if isinstance(e, ast.UnaryOp) and isinstance(e.op, ast.Not):
+            return self.dnf(e.operand, not pol)
+        if isinstance(e, ast.BoolOp):
+            parts = [self.dnf(v, pol) for v in e.values]
+            if isinstance(e.op, ast.And) is pol:
+                cur = [[]]
+                for p in parts:
+                    cur = [a + b for a in cur for b in p]
+                return cur
+            return [c for p in parts for c in p]
+        if isinstance(e, ast.IfExp):
+            yes, no = ast.BoolOp(op=ast.And(), values=[e.test, e.body]), \
+                ast.BoolOp(op=ast.And(), values=[ast.UnaryOp(op=ast.Not(), operand=e.test), e.orelse])
+            if pol:
+                return self.dnf(yes, True) + self.dnf(no, True)
+            return self.dnf(ast.BoolOp(op=ast.And(), values=[e.test, ast.UnaryOp(op=ast.Not(), operand=e.body)]), True) + \
+                self.dnf(ast.BoolOp(op=ast.And(), values=[ast.UnaryOp(op=ast.Not(), operand=e.test),
+                                                          ast.UnaryOp(op=ast.Not(), operand=e.orelse)]), True)
+        if isinstance(e, ast.Call) and isinstance(e.func, ast.Name) and e.func.id == 'bool' and len(e.args) == 1 and not e.keywords:
+            return self.dnf(e.args[0], pol)
+        if isinstance(e, ast.Call) and isinstance(e.func, ast.Name) and e.func.id in ('any', 'all') and len(e.args) == 1 \
+                and not e.keywords and isinstance(e.args[0], (ast.GeneratorExp, ast.ListComp)):
+            items = self._comp_items(e.args[0])
+            if items is not None:
+                if not items:
+                    return [[]] if (e.func.id == 'all') is pol else []
+                return self.dnf(ast.BoolOp(op=ast.Or() if e.func.id == 'any' else ast.And(), values=items), pol)
+        if isinstance(e, ast.Constant):
+            return [[]] if bool(e.value) is pol else []
+        if isinstance(e, ast.Compare) and len(e.ops) == 1 and type(e.ops[0]) in _FLIP:
+            return [[(ast.Compare(left=e.left, ops=[_FLIP[type(e.ops[0])]()], comparators=e.comparators), not pol)]]
+        return [[(e, pol)]]
+
+    def _comp_items(self, comp):
+        """The element expressions of ``<elt> for <target> in <constant tuple / list>`` (one clause), target replaced."""
+        if len(comp.generators) != 1 or comp.generators[0].is_async:
+            return None
+        g = comp.generators[0]
+        table = self.fold(g.iter)
+        if isinstance(table, dict):
+            table = tuple(table)
+        if not isinstance(table, (tuple, list)) or len(table) > 16:
+            return None
+        out = []
+        for item in table:
+            env = {}
+            if not self._bind(g.target, _value_ast(item), env):
+                return None
+            elt = comp.elt
+            if g.ifs:
+                elt = ast.BoolOp(op=ast.And(), values=list(g.ifs) + [elt])
+            out.append(_subst(elt, env))
+        return out
+
+    def _bind(self, target, value, env):
+        if value is None:
+            return False
+        if isinstance(target, ast.Name):
+            env[target.id] = value
+            return True
+        if isinstance(target, (ast.Tuple, ast.List)) and isinstance(value, (ast.Tuple, ast.List)) and \
+                len(target.elts) == len(value.elts) and not any(isinstance(x, ast.Starred) for x in target.elts):
+            return all(self._bind(t, v, env) for t, v in zip(target.elts, value.elts))
+        return False
+
+    # -- atoms
+    def interp(self, a):
+        """('len', (truth for length 0, 1, >= 2)) | ('gen', [partial assignments]) | ('const', bool) | None."""
+        t = self.term(a)
+        if t is not None:
+            if t[0] in ('param', 'first', 'last'):
+                return ('len', (False, True, True))       # a one-byte slice of a non-empty value is non-empty
+            if t[0] == 'const':
+                try:
+                    return ('const', bool(t[1]))
+                except Exception:
+                    return None
+            return None
+        if self._is_len(a):
+            return ('len', (False, True, True))
+        if isinstance(a, ast.Compare) and len(a.ops) == 1:
+            l, r, op = a.left, a.comparators[0], a.ops[0]
+            if self._is_len(r) and type(op) in _MIRROR:
+                l, r, op = r, l, _MIRROR[type(op)]()
+            if self._is_len(l):
+                k = self.fold(r)
+                if type(k) is not int:
+                    return None
+                table = {ast.Eq: (k <= 1, lambda n: n == k), ast.Gt: (k <= 1, lambda n: n > k), ast.GtE: (k <= 2, lambda n: n >= k),
+                         ast.Lt: (k <= 2, lambda n: n < k), ast.LtE: (k <= 1, lambda n: n <= k)}
+                if type(op) not in table or not table[type(op)][0]:
+                    return None
+                f = table[type(op)][1]
+                return ('len', (f(0), f(1), f(2)))
+            if isinstance(op, ast.Is):
+                t1, t2 = self.term(l), self.term(r)
+                if t1 is not None and t2 is not None and sorted([t1, t2], key=lambda t: t[0]) == [('const', None), ('param',)]:
+                    return ('const', False)         # the parameter holds bytes
+                return None
+            if isinstance(op, ast.Eq):
+                t1, t2 = self.term(l), self.term(r)
+                if t1 is None or t2 is None:
+                    return None
+                ms = self.unify(t1, t2)
+                return ('gen', ms) if ms is not None else None
+            if isinstance(op, ast.In):
+                t1, t2 = self.term(l), self.term(r)
+                if t1 is None or t2 is None:
+                    return None
+                ms = []
+                if t2[0] == 'const':
+                    coll = t2[1]
+                    if isinstance(coll, (tuple, list, set, frozenset, dict)):
+                        for el in coll:
+                            m = self.match(t1, el)
+                            if m is None:
+                                return None
+                            ms.extend(m)
+                        return ('gen', ms)
+                    if isinstance(coll, bytes) and t1[0] in ('first', 'last', 'first_int', 'last_int'):
+                        key = 'f' if t1[0].startswith('first') else 'l'
+                        ms = [{key: bytes([c])} for c in sorted(set(coll))]
+                        if t1[0] in ('first', 'last'):
+                            ms.append({'empty': True})          # b'' in <bytes> is true
+                        return ('gen', ms)
+                    return None
+                if t2[0] in ('tuple', 'list'):
+                    for el in t2[1]:
+                        m = self.unify(t1, el)
+                        if m is None:
+                            return None
+                        ms.extend(m)
+                    return ('gen', ms)
+                return None
+            return None
+        if isinstance(a, ast.Call) and isinstance(a.func, ast.Attribute) and a.func.attr in ('startswith', 'endswith') and \
+                len(a.args) == 1 and not a.keywords and self.term(a.func.value) == ('param',):
+            v = self.fold(a.args[0])
+            if v is _NOFOLD:
+                return None
+            key = 'f' if a.func.attr == 'startswith' else 'l'
+            ms = []
+            for alt in (v if isinstance(v, tuple) else (v,)):
+                if not isinstance(alt, bytes):
+                    return None                               # TypeError: reported by the type-confusion check
+                if len(alt) == 1:
+                    ms.append({key: alt})
+                elif len(alt) == 0:
+                    ms.append({})
+                else:
+                    return None
+            return ('gen', ms)
+        return None
+
+    def _is_len(self, e):
+        return isinstance(e, ast.Call) and isinstance(e.func, ast.Name) and e.func.id == 'len' and len(e.args) == 1 and \
+            not e.keywords and self.term(e.args[0]) == ('param',)
+
+    # -- points: None = the empty input, (f, l) = a non-empty input with that first and last byte
+    @staticmethod
+    def compatible(m, pt):
+        if pt is None:
+            return 'f' not in m and 'l' not in m
+        return not m.get('empty') and m.get('f', pt[0]) == pt[0] and m.get('l', pt[1]) == pt[1]
+
+    def holds(self, it, pol, pt):
+        """Can the interpreted atom have truth value ``pol`` for some input abstracted by the point pt?"""
+        if it[0] == 'len':
+            p0, p1, p2 = it[1]
+            poss = [p0] if pt is None else ([p2] if pt[0] != pt[1] else [p1, p2])
+            return any(p is pol for p in poss)
+        if it[0] == 'gen':
+            return any(self.compatible(m, pt) for m in it[1]) is pol
+        if it[0] == 'const':
+            return it[1] is pol
+        return True
+
+    def solve(self, conj):
+        """(points admitted by the conjunction, unbounded?, atoms outside the vocabulary)."""
+        sols, filters, unknown = [{}], [], []
+        for a, pol in conj:
+            it = self.interp(a)
+            if it is None:
+                unknown.append((a, pol))
+            elif it[0] == 'gen' and pol:
+                sols = self._product(sols, it[1])
+                filters.append((it, pol))
+            else:
+                filters.append((it, pol))
+        if unknown:
+            return None, None, unknown
+        pts, unbounded = set(), False
+        for s in sols:
+            if s.get('empty'):
+                cands = [None]
+            elif 'f' in s and 'l' in s:
+                cands = [(s['f'], s['l'])]
+            else:
+                # first or last byte left open: only the empty input can be named; any non-empty input the other tests
+                # admit makes the set unbounded
+                cands = [None] if not s else []
+                free_nonempty = True
+                for it, pol in filters:
+                    if it[0] == 'len':
+                        p0, p1, p2 = it[1]
+                        if not any(p is pol for p in (p1, p2)):
+                            free_nonempty = False
+                    elif it[0] == 'const' and it[1] is not pol:
+                        free_nonempty = False
+                if free_nonempty:
+                    unbounded = True
+            for pt in cands:
+                if all(self.holds(it, pol, pt) for it, pol in filters):
+                    pts.add(pt)
+        return pts, unbounded, []
+
+    def excludes_empty(self, test, pol):
+        """The condition (test has truth value pol) cannot hold for the empty input."""
+        for conj in self.dnf(test, pol):
+            ruled_out = False
+            for atom, p in conj:
+                it = self.interp(atom)
+                if it is not None and not self.holds(it, p, None):
+                    ruled_out = True
+                    break
+            if not ruled_out:
+                return False
+        return True
+
+
+def _unroll_const_loops(shape, fnode, limit=16):
+    """Copy of the function in which ``for <target> in <constant tuple / list>`` (no break / continue) is replaced by
+    its iterations in order -- ``target = <element>`` + body per element, then the else part: the very statements the
+    loop executes."""
+    def block(stmts):
+        out = []
+        for s in stmts:
+            if isinstance(s, ast.For) and not any(isinstance(n, (ast.Break, ast.Continue)) for n in ast.walk(s)):
+                table = shape.fold(s.iter)
+                if isinstance(table, dict):
+                    table = tuple(table)
+                items = _value_ast(table) if isinstance(table, (tuple, list)) else None
+                if items is not None and len(items.elts) <= limit:
+                    for e in items.elts:
+                        out.append(ast.copy_location(ast.Assign(targets=[copy.deepcopy(s.target)], value=e), s))
+                        out.extend(block(copy.deepcopy(s.body)))
+                    out.extend(block(s.orelse))
+                    continue
+            if isinstance(s, ast.If):
+                s2 = copy.copy(s)
+                s2.body, s2.orelse = block(s.body), block(s.orelse)
+                s = s2
+            out.append(s)
+        return out
+    fn = copy.copy(fnode)
+    fn.body = block(fnode.body)
+    return fn
+
+
+def _gj_structural(rep, repo, simple, gj, bnames, why):
+    """Label feasibility of _guess_json by shape: a body is guessed to be JSON exactly when its first and last byte form
+    one of the two matching bracket pairs, and the empty input is rejected without touching an element.  Branching on
+    comparisons, membership of the (first, last) pair / of the concatenation in a constant collection, loops over a
+    constant table of pairs, a constant opening -> closing table, startswith / endswith are all read into the same
+    predicate over (empty?, first byte, last byte); the function is never evaluated."""
+    params = [p for p in gj.params() if p not in ('self', 'cls')]
+    param = params[0]
+    shape = _GuessShape(repo, gj, param)
+    view = _FnView(gj, _unroll_const_loops(shape, gj.node))
+    try:
+        paths = sym_paths(view, lambda atom: None)
+    except AnalysisError as e:
+        raise AnalysisError('_guess_json has a shape the analysis cannot follow (%s; %s)' % (why, e))
+
+    rets, order = {}, []         # id(return stmt) -> {'stmt', 'pts', 'unbounded', 'conds'}
+    unknown, raise_at_empty, n_returns = [], [], 0
+    for st in paths:
+        trace = [[]]
+        for key, atom, orig, pol, decided in st.trace:
+            d = shape.dnf(atom, pol)
+            trace = [a + b for a in trace for b in d]
+        kind = st.term[0]
+        if kind == 'raise':
+            for conj in trace:
+                pts, unb, unk = shape.solve(conj)
+                if pts is not None and None in pts:
+                    raise_at_empty.append(st.term[2])
+            continue
+        if kind != 'return' or st.term[1] is None:
+            continue
+        n_returns += 1
+        rdnf = shape.dnf(st.term[1], True)
+        if not rdnf:
+            continue
+        stmt = st.term[2]
+        if id(stmt) not in rets:
+            rets[id(stmt)] = {'stmt': stmt, 'pts': set(), 'unbounded': False, 'conds': None, 'conds_pts': False}
+            order.append(id(stmt))
+        ent = rets[id(stmt)]
+        for c1 in trace:
+            for c2 in rdnf:
+                conj = c1 + c2
+                pts, unb, unk = shape.solve(conj)
+                if unk:
+                    unknown.extend((stmt, a, p) for a, p in unk)
+                    continue
+                ent['pts'] |= pts
+                ent['unbounded'] = ent['unbounded'] or unb
+                if ent['conds'] is None or ((pts or unb) and not ent['conds_pts']):
+                    ent['conds'], ent['conds_pts'] = conj, bool(pts or unb)     # the conditions quoted in the verdict
+    if unknown:
+        stmt, a, p = unknown[0]
+        raise AnalysisError('_guess_json has a shape the analysis cannot follow (%s; the test "%s" deciding the return at line %s '
+                            'is not a first / last byte test the analysis can read)' % (why, short(norm(a), 80), stmt.lineno))
+    if not n_returns:
+        raise AnalysisError('_guess_json has a shape the analysis cannot follow (%s; no return)' % why)
+
+    pos = dict((i, n) for n, i in enumerate(order))
+    order.sort(key=lambda i: (rets[i]['stmt'].lineno, pos[i]))
+    seen_pairs = set()
+    note = lambda: (' [%s]' % '; '.join(sorted(set(shape.notes)))) if shape.notes else ''
+    for n, i in enumerate(order):
+        ent = rets[i]
+        r = ent['stmt']
+        literal = isinstance(r.value, ast.Constant)
+        what = '"return True"' if literal else '"return %s"' % short(norm(r.value), 60)
+        pairs = set(p for p in ent['pts'] if p is not None)
+        cs = '; '.join(cond_texts(ent['conds'] or []))
+        if ent['unbounded']:
+            ok, msg = False, ('%s is not guarded by a matching JSON bracket pair on first and last byte: first or last byte is '
+                              'left open (conditions: %s)' % (what, cs))
+        elif not pairs:
+            ok, msg = False, ('%s can never yield true for a non-empty body: no (first, last) byte pair satisfies its tests '
+                              '(conditions: %s)%s' % (what, cs, note()))
+        elif not pairs <= _WANT_PAIRS:
+            ok, msg = False, ('%s is not guarded by a matching JSON bracket pair on first and last byte (admits %r; conditions: %s)'
+                              % (what, sorted(pairs - _WANT_PAIRS), cs))
+        else:
+            ok, msg = True, 'guarded by first/last byte pair %s (conditions: %s)' % (', '.join(repr(p) for p in sorted(pairs)), cs)
+        seen_pairs |= pairs & _WANT_PAIRS
+        rep.check('R17.b', fkey(gj, ('return True #%d' if literal else 'accepting return #%d') % (n + 1)), ok, msg, simple, r)
+    rep.check('R17.b', fkey(gj, 'bracket pairs'), seen_pairs == set(_WANT_PAIRS),
+              'both JSON container forms ({..} and [..]) are recognised' if seen_pairs == set(_WANT_PAIRS) else
+              'recognised bracket pairs %r, expected object and array%s' % (sorted(seen_pairs), note()), simple, gj.node)
+
+    # the empty input: answered False, and no element of the value is touched before emptiness is ruled out
+    accepts_empty = any(None in rets[i]['pts'] for i in order)
+    unguarded = []
+    for n in walk_body(gj.node):
+        if isinstance(n, ast.Subscript) and isinstance(n.value, ast.Name) and n.value.id == param and \
+                not isinstance(n.slice, ast.Slice):
+            guards = list(conds(gj, n))
+            cur = n
+            while cur is not None and not isinstance(cur, ast.stmt):
+                par = gj.mod.parents.get(cur)
+                if isinstance(par, ast.BoolOp) and cur in par.values:
+                    guards.extend((v, isinstance(par.op, ast.And)) for v in par.values[:par.values.index(cur)])
+                elif isinstance(par, ast.IfExp) and cur is not par.test:
+                    guards.append((par.test, cur is par.body))
+                cur = par
+            if not any(shape.excludes_empty(t, p) for t, p in guards):
+                unguarded.append(n)
+    ok = not accepts_empty and not unguarded and not raise_at_empty
+    if ok:
+        msg = 'empty input is answered False; no element access on a possibly empty value'
+    elif unguarded:
+        msg = ('no early "return False" for empty input (indexing an empty value is not guarded): %s at line %s'
+               % (norm(unguarded[0]), unguarded[0].lineno))
+    elif raise_at_empty:
+        msg = 'empty input raises (line %s) instead of being answered False' % raise_at_empty[0].lineno
+    else:
+        msg = 'empty input is guessed to be JSON'
+    rep.check('R17.b', fkey(gj, 'empty'), ok, msg, simple, gj.node)
